@@ -162,21 +162,87 @@ def run(chk, repo):
     chk.rule("C18.struct", "chunks.struct: format = [byte_order] + str(size) + dfmt; one pack(*block) per block of "
                            "blocks(seq, size, padval=padval)")
     sb = docstring_free(cs.body)
-    st = {unparse(s.targets[0]): unparse(s.value) for s in ast.walk(cs) if isinstance(s, ast.Assign)}
-    ok = st.get("dfmt") == "str(size) + dfmt" and st.get("s") == "struct.Struct(struct_string)"
-    bo = [s for s in sb if isinstance(s, ast.If) and unparse(s.test) == "byte_order is None"]
-    ok = ok and len(bo) == 1 and unparse(bo[0].body[0]) == "struct_string = dfmt" \
-        and unparse(bo[0].orelse[0]) == "struct_string = byte_order + dfmt"
-    chk.decide(ok, "C18.struct", WI("chunks[struct]"), "format string: %s / %s" % (st.get("dfmt"), short(bo[0]) if bo else "?"),
-               why="format must be the byte order character followed by the count and the type code", node=cs)
+
+    def _fmt_of(scn):
+        """the argument of struct.Struct(..) as a list of concatenated pieces, for one scenario
+        (byte_order None or not, size None or not); locals are resolved to what they were bound to"""
+        env = {}
+
+        class R(ast.NodeTransformer):
+            def visit_Name(self, n):
+                if isinstance(n.ctx, ast.Load) and n.id in env:
+                    return ast.parse(unparse(env[n.id]), mode="eval").body
+                return n
+
+            def visit_IfExp(self, n):
+                d = decide(n.test)
+                if d is None:
+                    self.generic_visit(n)
+                    return n
+                return self.visit(n.body if d else n.orelse)
+
+        def decide(t):
+            if isinstance(t, ast.UnaryOp) and isinstance(t.op, ast.Not):
+                d = decide(t.operand)
+                return None if d is None else not d
+            u = unparse(t)
+            for nm in ("byte_order", "size"):
+                if u == "%s is None" % nm:
+                    return scn[nm] is None
+                if u == "%s is not None" % nm:
+                    return scn[nm] is not None
+            return None
+        found = []
+
+        def run_(stmts):
+            for st_ in stmts:
+                if isinstance(st_, ast.Assign) and len(st_.targets) == 1 and isinstance(st_.targets[0], ast.Name):
+                    v_ = R().visit(ast.parse(unparse(st_.value), mode="eval").body)
+                    if isinstance(v_, ast.Call) and canon_call(imod, v_) == "struct.Struct" and v_.args:
+                        found.append(v_.args[0])
+                    env[st_.targets[0].id] = v_
+                elif isinstance(st_, ast.If):
+                    d = decide(st_.test)
+                    if d is None:
+                        # a test on something else (a cache, a flag): both arms may run; what they bind is not a plain
+                        # function of the parameters any more
+                        run_(st_.body)
+                        run_(st_.orelse)
+                        found.append(ast.Name(id="<depends on %s>" % unparse(st_.test)[:30], ctx=ast.Load()))
+                    else:
+                        run_(st_.body if d else st_.orelse)
+                elif isinstance(st_, (ast.For, ast.While)):
+                    for n_ in ast.walk(st_):
+                        if isinstance(n_, ast.Call) and canon_call(imod, n_) == "struct.Struct" and n_.args:
+                            found.append(R().visit(ast.parse(unparse(n_.args[0]), mode="eval").body))
+                    break
+        run_(sb)
+        if len(found) != 1:
+            return None, env
+
+        def flat(e):
+            if isinstance(e, ast.BinOp) and isinstance(e.op, ast.Add):
+                return flat(e.left) + flat(e.right)
+            return [unparse(e)]
+        return flat(found[0]), env
+    okf = True
+    seen_fmt = []
+    for scn in ({"byte_order": None, "size": 1}, {"byte_order": "<", "size": 1}, {"byte_order": None, "size": None},
+                {"byte_order": "<", "size": None}):
+        pieces, env_ = _fmt_of(scn)
+        sz = "str(size)" if scn["size"] is not None else "str(chunks.size)"
+        want_ = ([] if scn["byte_order"] is None else ["byte_order"]) + [sz, "dfmt"]
+        seen_fmt.append(pieces)
+        if pieces != want_:
+            okf = False
+    chk.decide(okf, "C18.struct", WI("chunks[struct]"), "format string per (byte_order, size) given or not: %s" % seen_fmt,
+               why="format must be the byte order character (when given) followed by the count (chunks.size by default) "
+                   "and the type code", node=cs)
     lp = [s for s in sb if isinstance(s, ast.For)]
     ok = len(lp) == 1 and unparse(lp[0].iter) == "blocks(seq, size, padval=padval)" \
         and [unparse(s) for s in lp[0].body] == ["yield s.pack(*%s)" % unparse(lp[0].target)]
     chk.decide(ok, "C18.struct", WI("chunks[struct]"), short(lp[0]) if lp else "loop missing",
                why="every block (padded with padval) must be packed once", node=cs)
-    dflt = [s for s in sb if isinstance(s, ast.If) and unparse(s.test) == "size is None"]
-    chk.decide(len(dflt) == 1 and unparse(dflt[0].body[0]) == "size = chunks.size", "C18.struct", WI("chunks[struct]"),
-               "default size = chunks.size", why="documented default", node=cs)
 
     # ----------------------------------------------------------------- array
     chk.rule("C18.array", "chunks.array: native array of `size` constant items; swap iff requested order differs from "
